@@ -6,7 +6,8 @@ class C02(StackCheck):
     prop = 'C02'
     rule = ('key, IV, ciphertext length in {0,16,...,96}, base BytesIO or SubsectionIO at non-zero offset, op lists of '
             '1-12 seek/read/tell/write (write must raise and change nothing) incl. reads inside block 0, starting or '
-            'ending mid-block, at the end and 1-40 bytes past it; monitor = per-block ECB decryption xor previous '
+            'ending mid-block, at the end and 1-40 bytes past it, the inner file object moved by its owner between calls (the '
+            'wrapper has no position of its own); monitor = per-block ECB decryption xor previous '
             'ciphertext block, instrumented base logs writes; non-trivial = some op returned data or raised')
     trusted_base = [
         'Lean 4.33 kernel; axioms propext, Classical.choice, Quot.sound only',
@@ -28,6 +29,10 @@ class C02(StackCheck):
             off = rng.randint(1, 37)
             base = ['sub', off, ln, ['bio', rng.rbytes(off + ln + rng.pick([0, 0, 3, 20]))]]
         ops = gen_ops(rng, ln, writes=rng.chance(0.3), queries=True)
+        if rng.chance(0.4):
+            # the inner file is moved behind the wrapper's back (a second wrapper on the same file object, the caller itself)
+            for _ in range(rng.randint(1, 3)):
+                ops.insert(rng.randint(0, len(ops)), ['is', rng.pick([0, 16, 32, 48, 64, rng.randint(0, ln + 20)])])
         return {'node': ['cbc', key, iv, base], 'ops': ops}
 
     def exhaustive(self, tier):
